@@ -39,6 +39,16 @@ CHECKS = {
              "FUNCTION_TRACING_ENABLED staying in builtins as False are not counted as hooks or guards. sys.meta_path contents and importlib cache functions are "
              "observed on the implementation only (the model has a finder count).",
         ref="DESIGN.md section 7 C07"),
+    "C15": dict(
+        technique="Coq proof (list/association reasoning over the scaffold of tracer.exec) on a transcribed model + in-coqc correspondence + function-body reference oracle",
+        text="C15_result_partial (the returned mapping, the caller's mapping and globals equal those of running the program's bindings as a function body), "
+             "C15_raises and C15_clean (no internal name in result / caller's mapping / globals, finishing or raising) are Qed-closed for every supplied "
+             "mapping and every sequence of local/global bindings and deletions over ordinary identifiers; C15_result_refuted is the recorded finding "
+             "(`builtins` / `__` bound by the program are dropped). Tied to tracer.py by 400 generated programs x mappings x {instrumented, not, "
+             "NoopTracer}; the oracle runs the same text as a function body in plain Python and also compares eval with the built-in eval.",
+        note="Trusted: Coq kernel + vm_compute; the abstraction of a straight-line program as its binding operations (CPython's function-local scoping "
+             "is modelled); generator computing that abstraction; harness. eval is covered by the oracle only.",
+        ref="DESIGN.md section 7 C15"),
     "C16": dict(
         technique="Coq proof (induction over behaviour trees: invariant on the two switches and running-handler depth) + in-coqc correspondence with handlers that run instrumented code",
         text="C16_depth (every handler invocation made while another handler runs is opted in: region switch on, or tracer allows re-entrant events and "
